@@ -24,6 +24,7 @@ def _m1():
         ('state', 's0', 'frozen', -1), ('state', 's0', 'frozen', 0),
         ('state', 's0', 'up', -1), ('state', 's1', 'down', -1),
         ('bl', 1), ('bl', 0),
+        ('cell-', 'rack:0'), ('cell+', 'rack:0'),
         ('tick', 40), ('noop',), ('restart',),
     )
     return cfg
